@@ -483,8 +483,16 @@ func c01ProductFamilies(thorough bool) []c01Product {
 	// end-tag recognition of raw-text / RCDATA elements: what follows the name, case, stray prefixes
 	after := []string{">", " >", "\t>", "\n>", "\f>", "\r>", "/>", "\v>", "\xa0>", "x>", "\x00>", "", " ", "\r", "/", " x=\"y\">"}
 	var raws []c01Product
-	for _, el := range []string{"script", "style", "textarea", "title"} {
+	rawEls := []string{"script", "style", "textarea", "title", "xmp", "iframe", "noscript"}
+	if thorough {
+		rawEls = append(rawEls, "noembed", "noframes")
+	}
+	for ei, el := range rawEls {
 		up := strings.ToUpper(el)
+		after := after
+		if ei >= 4 && !thorough {
+			after = after[:7] // the further raw-text elements share the end-tag code: fewer spellings in the quick tier
+		}
 		mixed := strings.ToUpper(el[:1]) + el[1:]
 		raws = append(raws, c01Product{"rawend-" + el, [][]string{
 			{"<" + el + ">", "<" + up + ">", "<" + el + " a=\"b\">"},
